@@ -265,7 +265,7 @@ func init() {
 		Bubble: true,
 		Cases: func(tier string) int {
 			if tier == "thorough" {
-				return 1500
+				return 6000
 			}
 
 			return 70
